@@ -25,7 +25,7 @@ From OxiVerif Require Import DD.Table DD.TableProofs DD.Canon DD.Sem DD.Build DD
   DD.Apply DD.ApplyProofs DD.ApplyEvalProofs DD.ConfigApply DD.ConfigRun
   DD.Quant DD.QuantSpecProofs DD.QuantLemmas DD.QuantProofs DD.RestrictProofs DD.SubstProofs
   DD.ApplyQuantProofs DD.QuantTopProofs
-  Mgr.SortOrder Mgr.LevelSwap Mgr.OomGc
+  DD.FamSpecProofs Mgr.SortOrder Mgr.SortOrderProofs Mgr.LevelSwap Mgr.LevelSwapOrder Mgr.OomGc
   Mgr.History Mgr.HistoryBase Mgr.HistoryGc Mgr.HistoryReorder.
 Import ListNotations.
 
@@ -479,6 +479,28 @@ Proof.
     + simpl. auto.
   - (* HSetVarOrder *)
     destruct Pre as [Hnd Hr].
+    assert (Hsame : hframe st (HSetVarOrder order) st).
+    { split; [intros; reflexivity|]. intros r Hrr. split; [apply (hroot_ok st r I Hrr) | reflexivity]. }
+    destruct (Nat.leb (length order) 1) eqn:Elen.
+    { exists st. split; [reflexivity|]. split; [exact I|]. split; [exact Hsame|]. simpl.
+      split; [reflexivity|]. intros a b Hab. apply Nat.leb_le in Elen. lia. }
+    assert (Eok : order_ok_b (nlevels (h_s C st)) order = true)
+      by (apply order_ok_b_valid; split; assumption).
+    rewrite Eok.
+    destruct (nat_list_eqb _ (seq 0 (nlevels (h_s C st)))) eqn:Esorted.
+    { exists st. split; [reflexivity|]. split; [exact I|]. split; [exact Hsame|]. simpl.
+      split; [reflexivity|]. intros a b Hab. apply nat_list_eqb_eq in Esorted.
+      pose proof (sort_order_respects (nlevels (h_s C st)) _
+                    (valid_order_levels (h_s C st) order H Hnd Hr) a b) as R.
+      rewrite map_length in R. specialize (R Hab). rewrite Esorted in R.
+      rewrite Forall_forall in Hr.
+      assert (Hlv : forall k, k < length order ->
+                nth k (map (fun v => nth v (s_v2l (h_s C st)) 0) order) 0 = nth (nth k order 0) (s_v2l (h_s C st)) 0).
+      { intros k Hk. apply (nth_map_in _ _ (fun v => nth v (s_v2l (h_s C st)) 0)). exact Hk. }
+      rewrite (Hlv a), (Hlv b) in R by lia.
+      assert (Hlt : forall k, k < length order -> nth (nth k order 0) (s_v2l (h_s C st)) 0 < nlevels (h_s C st)).
+      { intros k Hk. apply (wf_v2l_l2v (h_s C st) _ H). apply Hr. apply nth_In. exact Hk. }
+      rewrite !seq_nth in R by (apply Hlt; lia). exact R. }
     set (s1 := with_roots C st).
     assert (B1 : BddOK s1).
     { unfold s1, with_roots. apply bddok_set_handles; [exact B|].
